@@ -238,6 +238,15 @@ func checkC04(c *Ctx) {
 		{"f = func(x) {x + vcount()}", "println(f(1))", "println(f(1))"},
 		{`f = func(x) {if x > 1 {error("e")} else {x}}`, "println(catch(f(2)).err)", "println(catch(f(2)).err)"},
 	}
+	// 4b. every function kind called before and after every source form of every mutation / redefinition (deterministic, not sampled)
+	for _, kind := range []string{"pure", "lower", "upper", "callee", "print", "error", "impure", "need", "catchlower", "wraplower"} {
+		for _, change := range []string{"g = 1 - g", "g := 1 - g", "gflip()", "gflip2()", "g++; g = g % 2",
+			"h = func(x) {x + 2}", "h := func(x) {x + 2}", "del(h); h = func(x) {x + 2}", "h = (x => x + 2)", "func h(x) {x + 2}",
+			"hset(2)", "hset2(2)", "hset3(2)", "del(G); G = 20", "cset(20)", "del(G); G := 20"} {
+			call := "println(catch(f" + kind + "(1)))"
+			pinned = append(pinned, append(append([]string{}, memoPrelude...), call, change, call, call))
+		}
+	}
 	// 5. key confusion matrix: every function shape called with every ordered pair of argument lists that a sloppy cache key
 	//    could identify (int / float / string of the same digits, 0.0 / -0.0 / 0, an array / its spread / its nesting,
 	//    small / large containers, prefix-equal lists): the second and third call must not replay the first one's output
